@@ -17,7 +17,7 @@
    model": a reference to a leaf object that is no longer part of the tree (only the
    private bulk-load cache can hold one; unreachable through the public API).
 
-   Parameter [del_by_value]: LeafNode.delete returns the popped *value* and
+   Switch [del_by_value]: LeafNode.delete returns the popped *value* and
    _delete_from_leaf reports success as [deleted is not None].  With [del_by_value = true]
    the model follows that code literally (a stored None is removed from the leaf but the
    deletion is reported as "not found": KeyError, no rebalancing); with [false] success
